@@ -151,13 +151,20 @@ class Real:
 
     def __init__(self, s, out_dir=None):
         foreign = False
+        symlink_out = False
         if out_dir == "@foreign-cwd":
             out_dir, foreign = None, True
+        if out_dir == "@symlink-out":
+            out_dir, symlink_out = None, True
         self.s = s
         self.r = sc.Repo(s, "r", TARGETS, commands={"a": {"build": "x"}, "b": {"build": "x"}},
                          cfg_extra={"out_dir": out_dir} if out_dir else None,
                          files={"b/keep.txt": "keep\n", "a/keep.txt": "keep\n",
                                 ".gitignore": "monorail-out\n*.log\n" + ("%s\n" % out_dir.split("/")[0] if out_dir else "")})
+        if symlink_out:
+            # the output directory is a symbolic link to a directory elsewhere (build output on a scratch disk)
+            os.makedirs(os.path.join(s.dir, "scratch-disk", "mr-out"))
+            os.symlink(os.path.join(s.dir, "scratch-disk", "mr-out"), self.r.path("monorail-out"))
         if foreign:
             self.elsewhere = self.r.foreign_cwd()
         self.commit_ids = [self.r.head()]
@@ -1146,6 +1153,13 @@ def bfs(prop, tier, depth, wall_cap=None):
             agg["evaluations"] += r["evals"]
             agg["violations"].extend(r["violations"])
         agg["foreign_cwd_cases"] = len(seqs)
+        # the same sequences with the output directory being a symbolic link to a directory elsewhere
+        for r in common.pmap(state_task, [(prop, tier, ops, "@symlink-out") for ops in seqs]):
+            if "engine_error" in r:
+                raise common.EngineError(r["engine_error"])
+            agg["evaluations"] += r["evals"]
+            agg["violations"].extend(r["violations"])
+        agg["symlinked_out_dir_cases"] = len(seqs)
         # the same invariants with surroundings the model does not know about: records of earlier
         # successful / failed runs on disk, a listener attached
         sur = [[["RUN"]], [["RUN"], ["CPU"]], [["CPUP"], ["RUNF"], ["W", "a/f.txt", "2"]], [["RUN"], ["CPU"], ["RUNF"], ["CPD"]],
